@@ -33,15 +33,19 @@ func genExpr(r *hx.Rand) []SpecT {
 }
 
 func genName(r *hx.Rand) string {
-	name := hx.Pick(r, []string{"B", "B", "C", "B2"})
+	name := hx.Pick(r, []string{"B", "B", "C", "B2", "B-x", "C-1"})
 	for j := r.Intn(4); j > 0; j-- {
-		name += "/" + hx.Pick(r, []string{"p=1", "p=2", "q=1", "q=x", "gomaxprocs=4", "z", "p=", "r=7"})
+		name += "/" + hx.Pick(r, []string{"p=1", "p=2", "q=1", "q=x", "gomaxprocs=4", "z", "p=", "r=7",
+			// dashes inside values and non-numeric dash tails (only a trailing -digits is GOMAXPROCS)
+			"p=en-US", "p=en-GB", "q=1-2", "q=a-b-c", "p=-", "r=7-x", "z-9"})
 	}
-	switch r.Intn(6) {
+	switch r.Intn(8) {
 	case 0:
 		name += "-4"
 	case 1:
 		name += "-16"
+	case 2:
+		name += hx.Pick(r, []string{"-US", "-4x", "-", "-4-", "--8"})
 	}
 	return name
 }
@@ -267,5 +271,17 @@ func main() {
 			emit(scenarioOf(b, perm, residue, tag))
 		})
 		emit(konly(r, b))
+		if i%3 == 0 {
+			// the same results streamed through a real benchfmt.Reader and projected without Clone
+			perm := make([]int, len(b.exprs))
+			for j := range perm {
+				perm[j] = j
+			}
+			b2 := b
+			b2.failAt = -1
+			sc := scenarioOf(b2, perm, true, "stream")
+			sc.Stream = true
+			emit(sc)
+		}
 	}
 }
